@@ -185,9 +185,19 @@ def run(ctx):
     # ---- end to end: the keys the parties actually hold after real handshakes (simulator), real runtime calls
     from lib.sim import Sim, Fifo
     ne2e = 0
-    for (m, t) in [(3, 1), (4, 1), (5, 2)] + ([(5, 1), (7, 3)] if ctx.tier == 'thorough' else []):
-        sim = Sim(m, t, seed=rng.randrange(10**6))
+    # (m, t, t0): t0 is not None = the runtime comes up with threshold t0, PRSS functions are obtained for the bounds used
+    # below (prfs(bound) is cached per bound), then every party sets mpc.threshold = t before start() (as
+    # demos/parallelsort.py does): the sharings must follow the keys of the threshold in force
+    for (m, t, t0) in [(3, 1, None), (4, 1, None), (5, 2, None), (5, 2, 1), (5, 1, 2), (3, 1, 0)] + (
+            [(5, 1, None), (7, 3, None), (7, 3, 2)] if ctx.tier == 'thorough' else []):
+        sim = Sim(m, t if t0 is None else t0, seed=rng.randrange(10**6))
         try:
+            if t0 is not None:
+                for i in range(m):
+                    mpc_i = sim.mpcs[i]
+                    for st in (mpc_i.SecInt(16), mpc_i.SecFld(modulus=2**31 - 1)):
+                        mpc_i.prfs(st.field.order)
+                    mpc_i.threshold = t
             sim.start()
 
             async def prog(mpc, mods, pid):
@@ -203,8 +213,8 @@ def run(ctx):
                     out[name + '/open'] = [int(v.value) if hasattr(v, 'value') else int(v) for v in await mpc.output(r, raw=True)]
                 return out
             res = sim.run(prog, Fifo(), idle_limit=400)
-            key = {'m': m, 't': t, 'e2e': True}
-            ctx.case(key, kind='end-to-end m=%d t=%d' % (m, t))
+            key = {'m': m, 't': t, 'e2e': True, 'threshold_at_startup': t0}
+            ctx.case(key, kind='end-to-end m=%d t=%d%s' % (m, t, '' if t0 is None else ' after threshold change'))
             if any(not isinstance(r, dict) for r in res):
                 ctx.violation('e2e-run-failed m=%d t=%d' % (m, t), {**key, 'result': str(res)[:400]})
                 continue
